@@ -1363,6 +1363,8 @@ def numeval(t, env):
             return ev(ch[0]) ** ev(ch[1])
         if k == z3.Z3_OP_TO_REAL:
             return ev(ch[0])
+        if k == z3.Z3_OP_TO_INT:
+            return math.floor(ev(ch[0]))
         if k == z3.Z3_OP_ITE:
             return ev(ch[1]) if ev(ch[0]) else ev(ch[2])
         if k == z3.Z3_OP_AND:
